@@ -171,6 +171,8 @@ def verify_csr_decoder_elaborate():
     ok, detail = reduction_bounded(fn)
     fv.add("reduction-is-the-or-of-all[<=64, bounded]", "native", [], z3.BoolVal(ok))
     fv.reduction_detail = detail
+    from .hdlrec import stores_nothing_on_the_component as _frame
+    _frame(fv, ex)
     fv.add_engine_obligations(ex)
     return fv
 
@@ -368,6 +370,8 @@ def verify_wb_decoder_elaborate():
         ok, detail = False, f"{len(inner)} nested functions named any_of"
     fv.add("reduction-is-the-or-of-all[<=64, bounded]", "native", [], z3.BoolVal(ok))
     fv.reduction_detail = detail
+    from .hdlrec import stores_nothing_on_the_component as _frame
+    _frame(fv, ex)
     fv.add_engine_obligations(ex)
     return fv
 
